@@ -475,7 +475,7 @@ def gen_jobs(ctx):
         cases.append(("classic", n, t, sorted(set(ins))))
     for n, t in MALFORMED:
         cases.append(("malformed", n, t, []))
-    n_small = 60 if quick else 300
+    n_small = 60 if quick else 600
     for i in range(n_small):
         r = gramgen.random_grammar(rng, max_nt=3, max_alts=3, max_rhs=3,
                                    p_empty=rng.choice([0.0, 0.15, 0.3]))
@@ -493,7 +493,7 @@ def gen_jobs(ctx):
         if r is None:
             continue
         cases.append(("unary", "unary%d" % i, r[1], ["b" * k for k in range(0, 6)]))
-    n_wide = 50 if quick else 250
+    n_wide = 50 if quick else 500
     for i in range(n_wide):
         for gen, fam in ((gen_operator, "operators"), (gen_statements, "statements"),
                          (gen_wide_random, "wide"), (gen_lexical, "lexical")):
